@@ -9,6 +9,9 @@ package main
 // (ii) random runs: random trees/filters/limits/GOMAXPROCS with seeded delays injected through the
 //      verifhook callback, the listing source and the callbacks; L2 oracles on the implementation;
 //      every run is emitted as a Coq case checked against the model's selected set.
+// (iii) the no-error clause is judged from the caller's side on every run: whatever ended the walk
+//      (an injected error, a scope event from a callback, a Kill / foreign error from outside at any
+//      point), an empty Errors() after Wait() must come with exactly the selected set of callbacks.
 
 import (
 	"errors"
@@ -22,6 +25,7 @@ import (
 	"time"
 
 	"github.com/goatcms/goatcore/app"
+	"github.com/goatcms/goatcore/app/scope"
 	"github.com/goatcms/goatcore/filesystem"
 	"github.com/goatcms/goatcore/filesystem/filespace/memfs"
 	"github.com/goatcms/goatcore/filesystem/fshelper"
@@ -251,6 +255,13 @@ type c08Run struct {
 	Scope     bool   // the loop is given an event scope (KillSlot registered on its Kill and Error events)
 	KillOn    string // the callback on this item triggers the scope event before it goes on ("" = never)
 	KillEvt   int    // 0 = app.KillEvent, 1 = app.ErrorEvent
+	// an event that reaches the loop from OUTSIDE the walk (another goroutine, not a callback of the
+	// loop), at a chosen point of the walk; needs Scope
+	ExtAt   string // "" = never; "prerun" = before Run(); "run" = right after Run() returned; "readdir" / "callback" / "poll" / "gap" = when the ExtN-th listing / callback / consumer poll / consumer gap of the walk begins; "closed" = when the completion goroutine has announced the close
+	ExtN    int
+	ExtEvt  int  // 0 = Kill, 1 = an error appended to the scope (Error event)
+	ExtVia  int  // 0 = the minimal event scope of the harness; 1 = an application scope (scope.New), Kill() / AppendError(); 2 = the same on a CHILD of the application scope the loop is attached to (a child's events run the parent's listeners first)
+	ExtSync bool // the goroutine of the walk that reached the point goes on only after the event has been delivered
 }
 
 // c08Scope is the smallest app.EventScope: listeners by event id, Trigger calls them in order
@@ -395,6 +406,7 @@ type c08Obs struct {
 	ErrHit    bool // the injected error was actually returned to the loop
 	InjSeen   bool // the injected error itself is in Errors() right after Wait()
 	KillHit   bool // the scope event was triggered (by the callback on KillOn)
+	ExtHit    bool // the point of the external event was reached (the event was or is being delivered)
 	Yields    int32
 	Gaps      int32
 	ClosedEvt int32
@@ -433,7 +445,67 @@ func (r *c08Run) exec() (obs c08Obs) {
 		cbErrHit   int32
 		killHit    int32
 		sc         = &c08Scope{}
+		extCnt     int32
+		extCh      = make(chan struct{}) // closed when the point of the external event is reached
+		extDone    = make(chan struct{}) // closed when the event has been delivered
+		extQuit    = make(chan struct{})
+		extOnce    sync.Once
 	)
+	// the scope the loop is attached to, and how the outside world ends it
+	var es app.EventScope
+	deliver := func() {}
+	if r.Scope {
+		es = sc
+		foreign := errors.New("error of another component attached to the scope")
+		deliver = func() {
+			if r.ExtEvt == 1 {
+				sc.Trigger(app.ErrorEvent, []error{foreign})
+			} else {
+				sc.Trigger(app.KillEvent, nil)
+			}
+		}
+		if r.ExtAt != "" && r.ExtVia > 0 {
+			ascp := scope.New(scope.Params{})
+			target := ascp
+			if r.ExtVia == 2 {
+				target = scope.NewChild(ascp, scope.ChildParams{})
+			}
+			es = ascp
+			deliver = func() {
+				if r.ExtEvt == 1 {
+					target.AppendError(foreign)
+				} else {
+					target.Kill()
+				}
+			}
+		}
+	}
+	if r.ExtAt != "" {
+		go func() { // the outside world: not a goroutine of the walk
+			select {
+			case <-extCh:
+				deliver()
+				close(extDone)
+			case <-extQuit:
+			}
+		}()
+		defer close(extQuit)
+	}
+	ext := func(point string) {
+		if r.ExtAt != point {
+			return
+		}
+		if r.ExtN > 0 && atomic.AddInt32(&extCnt, 1) != int32(r.ExtN) {
+			return
+		}
+		extOnce.Do(func() { close(extCh) })
+		if r.ExtSync {
+			select {
+			case <-extDone:
+			case <-time.After(5 * time.Second):
+			}
+		}
+	}
 	delay := func(point string) {
 		if r.DelayMode == 0 {
 			return
@@ -461,8 +533,10 @@ func (r *c08Run) exec() (obs c08Obs) {
 		switch point {
 		case "fsloop.consumer.poll":
 			atomic.AddInt32(&obs.Yields, 1)
+			ext("poll")
 		case "fsloop.consumer.gap":
 			atomic.AddInt32(&obs.Gaps, 1)
+			ext("gap")
 			if r.DelayMode == 2 {
 				n := atomic.AddUint64(&ctr, 1)
 				if c08Hash("hold", r.Seed^n)%3 == 0 {
@@ -475,12 +549,13 @@ func (r *c08Run) exec() (obs c08Obs) {
 		case "fsloop.closed":
 			atomic.AddInt32(&obs.ClosedEvt, 1)
 			closedOnce.Do(func() { close(closedCh) })
+			ext("closed")
 		}
 		delay(point)
 	})
 	defer verifhook.SetCallback(nil)
 	inner, _ := memfs.NewFilespace()
-	tfs := &c08TreeFS{c08Inner: inner, root: r.Root, errPath: r.RdErr, delay: delay}
+	tfs := &c08TreeFS{c08Inner: inner, root: r.Root, errPath: r.RdErr, delay: func(point string) { ext(point); delay(point) }}
 	cb := func(prefix string) filesystem.LoopOn {
 		return func(fs filesystem.Filespace, p string) error {
 			n := atomic.AddInt32(&cur, 1)
@@ -496,6 +571,7 @@ func (r *c08Run) exec() (obs c08Obs) {
 			mu.Lock()
 			obs.Items = append(obs.Items, prefix+p)
 			mu.Unlock()
+			ext("callback")
 			if r.KillOn != "" && r.KillOn == prefix+p {
 				atomic.AddInt32(&killHit, 1)
 				if r.KillEvt == 1 {
@@ -547,12 +623,10 @@ func (r *c08Run) exec() (obs c08Obs) {
 			}
 			done <- rr
 		}()
-		var es app.EventScope
-		if r.Scope {
-			es = sc
-		}
 		loop := fsloop.NewLoop(ld, es)
+		ext("prerun")
 		loop.Run(r.Start)
+		ext("run")
 		loop.Wait()
 		if atomic.LoadInt32(&cur) != 0 {
 			atomic.AddInt32(&late, 1)
@@ -591,6 +665,11 @@ func (r *c08Run) exec() (obs c08Obs) {
 	obs.Late = atomic.LoadInt32(&late)
 	obs.ErrHit = atomic.LoadInt32(&cbErrHit) > 0 || atomic.LoadInt32(&tfs.errHit) > 0
 	obs.KillHit = atomic.LoadInt32(&killHit) > 0
+	select {
+	case <-extCh:
+		obs.ExtHit = true
+	default:
+	}
 	return
 }
 
@@ -663,7 +742,9 @@ func (r *c08Run) desc(obs *c08Obs) map[string]interface{} {
 	return map[string]interface{}{"index": r.Index, "op": "run", "kind": r.Kind, "tree": root, "consumers": r.C, "producents": r.P,
 		"dirfilter": r.HasDF, "filefilter": r.HasFF, "ondir": r.OnDir, "onfile": r.OnFile, "salt": r.Salt,
 		"cb_error_on": r.CbErr, "readdir_error_on": r.RdErr,
-		"start": r.Start, "scope": r.Scope, "scope_event_on": r.KillOn, "scope_event": map[int]string{0: "kill", 1: "error"}[r.KillEvt], "gomaxprocs": r.GMP, "delay_mode": r.DelayMode, "run_seed": r.Seed,
+		"start": r.Start, "scope": r.Scope, "scope_event_on": r.KillOn, "scope_event": map[int]string{0: "kill", 1: "error"}[r.KillEvt],
+		"outside_event_at": r.ExtAt, "outside_event_n": r.ExtN, "outside_event": map[int]string{0: "kill", 1: "error"}[r.ExtEvt], "outside_event_via": map[int]string{0: "harness event scope", 1: "application scope", 2: "child of the application scope"}[r.ExtVia], "outside_event_sync": r.ExtSync, "outside_event_reached": obs.ExtHit,
+		"gomaxprocs": r.GMP, "delay_mode": r.DelayMode, "run_seed": r.Seed,
 		"observed": items, "max_concurrent": obs.MaxConc, "errors": obs.NErrors, "hang": obs.Hang, "panic": obs.Panic}
 }
 
@@ -672,6 +753,9 @@ func (r *c08Run) check(o *Out, emit bool) {
 	exp := r.expected()
 	d := r.desc(&obs)
 	key := fmt.Sprintf("%s|%d|%d|%v%v%v%v|%d|%s|%s|%d|%d", r.Kind, r.C, r.P, r.HasDF, r.HasFF, r.OnDir, r.OnFile, r.Salt%97, r.CbErr, r.RdErr, len(exp), c08Count(r.Root))
+	if r.ExtAt != "" {
+		key += fmt.Sprintf("|%s%d.%d.%d", r.ExtAt, r.ExtN, r.ExtEvt, r.ExtVia)
+	}
 	nontrivial := len(exp) > 0
 	o.Stat("kind_" + r.Kind)
 	o.Stat(fmt.Sprintf("gomaxprocs_%d", r.GMP))
@@ -714,29 +798,44 @@ func (r *c08Run) check(o *Out, emit bool) {
 	if r.Scope {
 		o.Stat("runs_with_scope")
 	}
-	selCase, subCase := "CSel", "CSub"
-	if r.Start != "" {
-		selCase, subCase = "CSelAt "+coqStr(r.base()), "CSubAt "+coqStr(r.base())
+	if r.ExtAt != "" {
+		o.Stat("runs_with_outside_event_at_" + r.ExtAt)
 	}
-	if (!injected || !obs.ErrHit) && !obs.KillHit {
+	// L1: one case per run; the relation is chosen INSIDE Coq by what the caller was told (the length
+	// of Errors() read right after Wait(), and whether a failure was returned to the loop)
+	emitCase := func() {
+		if !emit {
+			o.CountEval(key, nontrivial)
+			return
+		}
+		nrep := obs.NErrors
+		if nrep > 9 {
+			nrep = 9
+		}
+		facc, dacc := r.accLists()
+		o.AddCase(fmt.Sprintf("CRep %s %s %s %s %s %s %s %s %d%%nat %s %s", coqStr(r.base()), c08CoqTrees(r.startEntries()), coqBool(r.HasDF), coqBool(r.HasFF),
+			coqBool(r.OnDir), coqBool(r.OnFile), coqStrList(facc), coqStrList(dacc), nrep, coqBool(injected && obs.ErrHit), c08Items(obs.Items)), d, key, nontrivial)
+	}
+	complete := c08SameMultiset(exp, obs.Items)
+	if (!injected || !obs.ErrHit) && !obs.KillHit && !obs.ExtHit {
 		o.Stat("obs_ok")
 		if obs.NErrors != 0 {
 			o.Fail("no-spurious-error", fmt.Sprintf("Errors() has %d entries although nothing failed", obs.NErrors), "C08-spurious", d)
-		} else if !c08SameMultiset(exp, obs.Items) {
+		} else if !complete {
 			o.Fail("exactly-once", fmt.Sprintf("callbacks differ from the selected set (%d expected, %d made) and Errors() is empty: %s",
 				len(exp), len(obs.Items), c08Diff(exp, obs.Items)), "C08-exactly-once", d)
 		}
-		if emit {
-			facc, dacc := r.accLists()
-			o.AddCase(fmt.Sprintf("%s %s %s %s %s %s %s %s %s", selCase, c08CoqTrees(r.startEntries()), coqBool(r.HasDF), coqBool(r.HasFF), coqBool(r.OnDir),
-				coqBool(r.OnFile), coqStrList(facc), coqStrList(dacc), c08Items(obs.Items)), d, key, nontrivial)
-		} else {
-			o.CountEval(key, nontrivial)
-		}
+		emitCase()
 		return
 	}
 	if obs.KillHit {
 		o.Stat("obs_scope_event")
+	}
+	if obs.ExtHit {
+		o.Stat("obs_outside_event")
+		if !complete {
+			o.Stat("obs_outside_event_walk_incomplete")
+		}
 	}
 	if injected && obs.ErrHit {
 		o.Stat("obs_err")
@@ -748,17 +847,21 @@ func (r *c08Run) check(o *Out, emit bool) {
 		} else if !obs.InjSeen {
 			o.Fail("error-reported", "a callback/listing error was returned to the loop but it is not in Errors() when Wait() returns (only the cancellation is)", "C08-error-lost", d)
 		}
+	} else if obs.NErrors == 0 && !complete {
+		// the no-error clause read from the caller's side, whatever ended the walk (a Kill or Error
+		// event of the scope, from a callback or from outside, at any point): an empty error list after
+		// Wait() says "every selected node was visited once"
+		why := "a scope event raised from a callback"
+		if obs.ExtHit {
+			why = fmt.Sprintf("an event from outside the walk (%s, at %s #%d)", map[int]string{0: "Kill", 1: "error appended to the scope"}[r.ExtEvt], r.ExtAt, r.ExtN)
+		}
+		o.Fail("exactly-once", fmt.Sprintf("the walk was ended by %s: Wait() returned, Errors() is empty, but the callbacks differ from the selected set (%d expected, %d made): %s",
+			why, len(exp), len(obs.Items), c08Diff(exp, obs.Items)), "C08-stopped-unreported", d)
 	}
 	if !c08SubMultiset(obs.Items, exp) {
 		o.Fail("at-most-once", "callbacks are not a sub-multiset of the selected set: "+c08Diff(exp, obs.Items), "C08-at-most-once", d)
 	}
-	if emit {
-		facc, dacc := r.accLists()
-		o.AddCase(fmt.Sprintf("%s %s %s %s %s %s %s %s %s", subCase, c08CoqTrees(r.startEntries()), coqBool(r.HasDF), coqBool(r.HasFF), coqBool(r.OnDir),
-			coqBool(r.OnFile), coqStrList(facc), coqStrList(dacc), c08Items(obs.Items)), d, key, nontrivial)
-	} else {
-		o.CountEval(key, nontrivial)
-	}
+	emitCase()
 }
 
 func c08GenRun(rng *RNG, tier string, i int) *c08Run {
@@ -849,6 +952,11 @@ func c08GenRun(rng *RNG, tier string, i int) *c08Run {
 		}
 		return r
 	}
+	if r.Scope && rng.Chance(50) {
+		// the scope is ended from OUTSIDE while the walk is somewhere: nothing fails inside the walk
+		c08GenExt(rng, r)
+		return r
+	}
 	if rng.Chance(20) {
 		exp := r.expected()
 		if rng.Bool() && len(exp) > 0 {
@@ -872,6 +980,42 @@ func c08GenRun(rng *RNG, tier string, i int) *c08Run {
 		}
 	}
 	return r
+}
+
+// c08GenExt: when, how and through which scope the outside world ends the walk of r.  The points
+// are counted per run (the n-th listing / callback / poll / gap), n up to a little beyond what the
+// walk has, so that "just before the end" and "never reached" occur too.
+func c08GenExt(rng *RNG, r *c08Run) {
+	r.Scope = true
+	nsel := len(r.expected())
+	sv := r.OnDir
+	r.OnDir = true
+	nlist := 1
+	for _, e := range r.expected() {
+		if strings.HasPrefix(e, "D:") {
+			nlist++
+		}
+	}
+	r.OnDir = sv
+	r.ExtSync = rng.Chance(70)
+	switch k := rng.Intn(100); {
+	case k < 6:
+		r.ExtAt, r.ExtSync = "prerun", true
+	case k < 16:
+		r.ExtAt = "run"
+	case k < 40:
+		r.ExtAt, r.ExtN = "readdir", 1+rng.Intn(nlist)
+	case k < 70:
+		r.ExtAt, r.ExtN = "callback", 1+rng.Intn(nsel+1)
+	case k < 80:
+		r.ExtAt, r.ExtN = "poll", 1+rng.Intn(2*nsel+3)
+	case k < 92:
+		r.ExtAt, r.ExtN = "gap", 1+rng.Intn(2*nsel+3)
+	default:
+		r.ExtAt = "closed"
+	}
+	r.ExtEvt = rng.Intn(2)
+	r.ExtVia = rng.Intn(3)
 }
 
 // ---------- forced schedule (F16)
@@ -1015,7 +1159,11 @@ func runC08(o *Out, rng *RNG, tier string, replay string) {
 		"(which fails itself half of the time: that error must be listed; Wait() must cover the running callback), the file queue / the directory queue / both overflowing with 1-2 slow consumers; "+
 		"(iv) error-position sweep: on one tree the error on every callback and every listing x Producents 1/2/16 x Consumers 1/3, then a scope event from every callback; "+
 		"(v) error storm: 4000 mixed + 40000 producer-listing walks with 1-2 consumers at GOMAXPROCS >= 2 (the injected error must be in Errors() the moment Wait() returns); "+
-		"(vi) the callers fshelper.Copy and fsi18loader.Load on generated trees with a directory filter / base path / scope and one failing listing, read, write or mkdir: nil => exactly the selected files (keys) arrived, a failure that happened => an error is returned", rep, n)
+		"(vi) the walk ended from OUTSIDE with nothing failing inside it: a loop attached to a scope (the harness event scope, an application scope, or an application scope whose CHILD is hit) "+
+		"gets a Kill or an error appended to the scope from another goroutine before Run, right after Run, when the n-th listing / callback / consumer poll / consumer gap begins or when the close is announced "+
+		"(about an eighth of the random runs; in the sweep every callback, every listing, polls/gaps 1,2,4,9 x Producents 1/16 x Consumers 1/3, and a scope event from inside every callback that does not fail); "+
+		"oracle on EVERY run, whatever was done to it: Errors() empty after Wait() => callbacks = selected set; the Coq case of every run (CRep) carries len(Errors()) and 'a failure was returned' and Model.LoopRep.rep_ok decides; "+
+		"(vii) the callers fshelper.Copy and fsi18loader.Load on generated trees with a directory filter / base path / scope and one failing listing, read, write or mkdir: nil => exactly the selected files (keys) arrived, a failure that happened => an error is returned; Load with its application scope (or a child of it) killed / failed by another goroutine at the n-th listing or read: nil => every selected key arrived", rep, n)
 	only := replayIndex(replay)
 	if only < 0 {
 		c08Forced(o, rep)
